@@ -166,7 +166,40 @@ def check(run):
         if a == b and not ok:
             run.fail('%s over two arrays with the same index type %s is rejected (%s)' % (form, a, errs[0] if errs else ''), dict(form=form, index_type=a, model=model), shape='same-index-rejected:%s' % form)
     run.cov['index_type_pairs_checked'] = nidx
-    run.cov.update(evaluations=len(cases) + len(refcases) + len(smodels) + len(imodels), distinct_nontrivial=len(verdict), traces_validated_against_impl=len(cases), exhaustive=True,
+    # ---- inline-if where a modifiable l-value is needed: the verdict must not depend on which branch stands first ----
+    ldecl = ('typedef struct { int a; int b; } LS; int li, li2; const int lc = 1, lc2 = 2; int la[2]; const int lca[2] = {1, 2}; LS ls, ls2; const LS lcs = {1, 2}; bool cnd;\n'
+             'void wr(int &r) { r = 1; }\nvoid wrs(LS &r) { r.a = 1; }\n')
+    lpairs = [('li', 'lc', 'int'), ('li', 'li2', 'int'), ('lc', 'lc2', 'int'), ('la[0]', 'lca[0]', 'int'), ('la[1]', 'li', 'int'), ('lca[1]', 'li', 'int'), ('ls', 'lcs', 'LS'), ('ls', 'ls2', 'LS'),
+              ('ls.a', 'lcs.a', 'int'), ('ls.b', 'lc', 'int')]
+    lmodels = []
+    for x, y, ty in lpairs:
+        for form in ('assign', 'compound', 'ref-arg', 'increment'):
+            if ty == 'LS' and form in ('compound', 'increment'):
+                continue
+            for order in (0, 1):
+                tgt = '(cnd ? %s : %s)' % (x, y) if order == 0 else '(!cnd ? %s : %s)' % (y, x)
+                body = {'assign': '%s = %s;' % (tgt, 'ls2' if ty == 'LS' else '7'), 'compound': '%s += 1;' % tgt, 'increment': '%s++;' % tgt, 'ref-arg': '%s(%s);' % ('wrs' if ty == 'LS' else 'wr', tgt)}[form]
+                lmodels.append((x, y, form, order, ldecl + 'void h() { %s }\nprocess P() { state A; init A; }\nsystem P;\n' % body))
+    j = vlib.Job()
+    for k, m in enumerate(lmodels):
+        j.case('l%d' % k, fork=True).model('xta', m[4]).dump('errors').end()
+    rr = vlib.run_jobs(j)
+    lacc = {}
+    for k, (x, y, form, order, model) in enumerate(lmodels):
+        c = rr['l%d' % k]
+        errs = [l.split('msg="')[1].split('"')[0] for l in c['cmds'][1][2] if l.startswith('error')] if len(c['cmds']) > 1 else ['?']
+        lacc[(x, y, form, order)] = (not errs, errs[:1], model)
+    nlv = 0
+    for (x, y, form, order), (ok, errs, model) in lacc.items():
+        if order == 1:
+            continue
+        nlv += 1
+        ok2, errs2, model2 = lacc[(x, y, form, 1)]
+        if ok != ok2:
+            run.fail('%s through a conditional over %s and %s is %s with %s first and %s with %s first (%s)' % (form, x, y, 'accepted' if ok else 'rejected', x, 'accepted' if ok2 else 'rejected', y, (errs or errs2)[0] if (errs or errs2) else ''),
+                     dict(form=form, operands=[x, y], model=model, model_swapped=model2), shape='asym-lvalue:%s' % form)
+    run.cov['lvalue_conditional_pairs_checked'] = nlv
+    run.cov.update(evaluations=len(cases) + len(refcases) + len(smodels) + len(imodels) + len(lmodels), distinct_nontrivial=len(verdict), traces_validated_against_impl=len(cases), exhaustive=True,
                    rule='exhaustive: every binary operator of the typing table x every ordered pair of the %d realised operand classes (int, bounded int, bool, double, clock, clock difference, rate, invariant, guard, '
                         'constraint, two struct types, two array types, two scalar sets, three channel kinds, void), and inline-if over 5 condition classes x all branch pairs: '
                         'implementation class vs extracted Coq table; then both operand orders compared on the implementation; plus reference/const parameter x argument type matrix' % len(classes),
